@@ -304,6 +304,8 @@ def plan(ctx):
            for a, b in (({}, {}), ({"resample": "syst"}, {"eval": "scalar", "vv": 0.5}), ({"d": 2, "clustering": True}, {"d": 2, "clustering": True, "target": "bimodal"})) for sh in range(2)]
     ctx.explore("two-samplers-interleaved", duo)
     from mc import session as _s2
+    from mc.pipeline import LARGE
+    ctx.explore("large-scopes", [{"kind": "pipe1", "cfg": c, "base": ctx.seed, "offsets": offs[:2]} for c in LARGE])
     ctx.explore("resume-with-other-options", [{"kind": "cross", "cfg": dict(n_particles=16, d=2, n_total=48, eval="scalar", clustering=False), "pair": list(pr), "base": ctx.seed + b} for pr in _s2.CROSS for b in ((0, 5) if th else (0,))])
     agg = ctx.explore("terminal-states", cases)
     if agg.extra.get("run_cap_hit"):
